@@ -236,5 +236,5 @@ fn groups(g: &mut Groups) {
     g.prop("twin", 16_000, 1_600_000, || case(), check_case);
     g.prop("cli", 1_200, 64_000, || case(), check_cli);
     // The same route with the command line parsed in this process (hook `__verif::cli`).
-    g.prop("cli_inproc", 8_000, 400_000, || case(), |c| twin::with_cli_in_process(|| check_cli(c)));
+    g.prop("cli_inproc", 16_000, 400_000, || case(), |c| twin::with_cli_in_process(|| check_cli(c)));
 }
